@@ -256,7 +256,7 @@ example := C14_class_plain exS exS_inv 0 _ rfl
 -- C14_copy_independent: the source is rewritten, shrunk to nothing and destroyed; the copy is not named
 example := C14_copy_independent true exS exS_inv 1 0 [some 5, some 6] rfl rfl
   [.set 0 0 9, .resize 0 0, .drop 0]
-  (by simp [Spec.validFrom, Spec.valid, Spec.step, exS, AStore.abs, Slots.find, Slots.put, Slots.del, Slots.isFree,
+  (by simp [Spec.validFrom, Spec.valid, Spec.step, exS, AStore.abs, Slots.find, Slots.put,
             Arr.contents, Spec.resized, Spec.dfl])
 
 -- C14_shallow_copy_refuted, C14_move_transfers
